@@ -1,4 +1,122 @@
-From HP Require Import Base.Prelude Blob.Bytes.
-Example C19_smoke : fst (bstep binit (BNew [1;2;3]%N)) <> binit.
-Proof. vm_compute. discriminate. Qed.
-Print Assumptions C19_smoke.
+(* C19 -- Blobs behave as plain byte sequences: exact results, errors not panics.
+   Statements only; every proof is [exact <lemma>] into Blob/BytesProofs.v / Blob/BytesLaws.v.
+   [bexec ops] is the state reached from the empty state by ANY history [ops]; [bstep] is the
+   model of one call on blob.Bytes (Blob/Bytes.v), tied to /repo by the per-run correspondence. *)
+From HP Require Import Base.Prelude Blob.Bytes Blob.BytesProofs Blob.BytesLaws.
+Open Scope nat_scope.
+
+(* No call ever panics or blocks on a mutex the caller already holds -- in particular writing a
+   view of a blob back into that blob terminates -- after every history. *)
+Theorem C19_never_panics_never_self_deadlocks : forall ops,
+  Forall (fun ro => fst ro <> RDeadlock /\ fst ro <> RPanic) (brun binit ops).
+Proof. intros ops. exact (brun_safe binit ops eq_refl). Qed.
+Print Assumptions C19_never_panics_never_self_deadlocks.
+
+Theorem C19_self_set_terminates : forall ops d v o,
+  let r := snd (bstep (bexec ops) (BSet d v o)) in r <> RDeadlock /\ r <> RPanic.
+Proof. intros ops d v o. exact (proj2 (bstep_terminates_unlocked (bexec ops) (BSet d v o) (proj1 (bexec_inv ops)))). Qed.
+Print Assumptions C19_self_set_terminates.
+
+(* Every reachable state is well-formed: every blob lies inside its backing array. *)
+Theorem C19_reachable_wf : forall ops, held (bexec ops) = [] /\ wf (bexec ops).
+Proof. exact bexec_inv. Qed.
+Print Assumptions C19_reachable_wf.
+
+(* Negative or out-of-range arguments: an error, and NOTHING is modified (the whole state,
+   hence every blob's bytes and length, is unchanged). *)
+Theorem C19_out_of_range_is_error_and_changes_nothing : forall ops op,
+  handles_ok (bexec ops) op -> in_range (bexec ops) op = false ->
+  bstep (bexec ops) op = (bexec ops, RErr).
+Proof. intros ops op H R. rewrite bstep_reach. exact (oob_rejected _ op H R). Qed.
+Print Assumptions C19_out_of_range_is_error_and_changes_nothing.
+
+(* In-range arguments are never refused (except the one documented quirk). *)
+Theorem C19_in_range_is_accepted : forall ops op,
+  handles_ok (bexec ops) op -> in_range (bexec ops) op = true -> set_quirk (bexec ops) op = false ->
+  snd (bstep (bexec ops) op) <> RErr /\ snd (bstep (bexec ops) op) <> RBadHandle.
+Proof. intros ops op H R Q. rewrite bstep_reach. exact (in_range_accepted _ op H R Q). Qed.
+Print Assumptions C19_in_range_is_accepted.
+
+(* Len / Bytes *)
+Theorem C19_len_is_length_of_bytes : forall ops bi b, nth_error (blobs (bexec ops)) bi = Some b ->
+  bstep (bexec ops) (BLen bi) = (bexec ops, ROk (Z.of_nat (length (bytes_of (bexec ops) b)))).
+Proof. intros ops bi b E. rewrite bstep_reach. exact (len_law _ bi b (proj2 (bexec_inv ops)) E). Qed.
+Print Assumptions C19_len_is_length_of_bytes.
+
+Theorem C19_bytes_returns_contents : forall ops bi b, nth_error (blobs (bexec ops)) bi = Some b ->
+  bstep (bexec ops) (BBytes bi) = (bexec ops, RBytes (bytes_of (bexec ops) b)).
+Proof. intros ops bi b E. rewrite bstep_reach. exact (bytes_law _ bi b E). Qed.
+Print Assumptions C19_bytes_returns_contents.
+
+(* View: the sub-sequence, aliasing the original (same array, shifted offset). *)
+Theorem C19_view : forall ops bi b s e, let st := bexec ops in
+  nth_error (blobs st) bi = Some b -> range_ok (s_len b) s e = true ->
+  exists v, bstep st (BView bi s e) =
+      (mkB (arrays st) (blobs st ++ [v]) (next_mu st) (held st), ROk (Z.of_nat (length (blobs st))))
+    /\ bytes_of st v = sublist (Z.to_nat s) (Z.to_nat e) (bytes_of st b)
+    /\ s_arr v = s_arr b /\ s_off v = s_off b + Z.to_nat s /\ s_len v = Z.to_nat e - Z.to_nat s.
+Proof. intros ops bi b s e st E R. subst st. rewrite bstep_reach. exact (view_law _ bi b s e (proj2 (bexec_inv ops)) E R). Qed.
+Print Assumptions C19_view.
+
+(* Slice: the same bytes in a fresh array (an independent copy). *)
+Theorem C19_slice : forall ops bi b s e, let st := bexec ops in
+  nth_error (blobs st) bi = Some b -> range_ok (s_len b) s e = true ->
+  let d := sublist (Z.to_nat s) (Z.to_nat e) (bytes_of st b) in
+  let v := mkSlice (length (arrays st)) 0 (length d) (next_mu st) in
+  bstep st (BSlice bi s e) =
+      (mkB (arrays st ++ [(d, true)]) (blobs st ++ [v]) (Datatypes.S (next_mu st)) (held st),
+       ROk (Z.of_nat (length (blobs st))))
+  /\ bytes_of (fst (bstep st (BSlice bi s e))) v = d.
+Proof. intros ops bi b s e st E R. subst st. rewrite bstep_reach. exact (slice_law _ bi b s e E R). Qed.
+Print Assumptions C19_slice.
+
+(* Set: copy() semantics on the destination; blobs in other arrays (slices, Bytes() copies,
+   unrelated blobs) are untouched; blobs in the same array outside the written window too. *)
+Theorem C19_set : forall ops di si d s o, let st := bexec ops in
+  nth_error (blobs st) di = Some d -> nth_error (blobs st) si = Some s ->
+  in_range st (BSet di si o) = true -> set_quirk st (BSet di si o) = false ->
+  let o' := Z.to_nat o in
+  let n := Nat.min (s_len d - o') (length (bytes_of st s)) in
+  let st' := fst (bstep st (BSet di si o)) in
+  snd (bstep st (BSet di si o)) = ROk (Z.of_nat n)
+  /\ blobs st' = blobs st
+  /\ bytes_of st' d = splice (bytes_of st d) o' (firstn n (bytes_of st s))
+  /\ (forall x, In x (blobs st) -> s_arr x <> s_arr d -> bytes_of st' x = bytes_of st x)
+  /\ (forall x, In x (blobs st) -> s_arr x = s_arr d ->
+        (s_off x + s_len x <= s_off d + o' \/ s_off d + o' + n <= s_off x) -> bytes_of st' x = bytes_of st x).
+Proof. intros ops di si d s o st Ed Es R Q. subst st. rewrite bstep_reach. exact (set_law _ di si d s o (proj2 (bexec_inv ops)) Ed Es R Q). Qed.
+Print Assumptions C19_set.
+
+(* Views alias the original: a write through a view lands in the original at the view's offset. *)
+Theorem C19_write_through_view : forall ops bi b vi v si s x, let st := bexec ops in
+  nth_error (blobs st) bi = Some b -> nth_error (blobs st) vi = Some v -> nth_error (blobs st) si = Some s ->
+  s_arr v = s_arr b -> s_off v = s_off b + x -> x + s_len v <= s_len b ->
+  s_len s <= s_len v -> 0 < s_len v ->
+  bytes_of (fst (bstep st (BSet vi si 0))) b = splice (bytes_of st b) x (bytes_of st s).
+Proof. intros ops bi b vi v si s x st Eb Ev Es. subst st. rewrite bstep_reach. exact (view_write_through _ bi b vi v si s x (proj2 (bexec_inv ops)) Eb Ev Es). Qed.
+Print Assumptions C19_write_through_view.
+
+(* Grow appends zeros; Truncate keeps a prefix. *)
+Theorem C19_grow : forall ops bi b n, let st := bexec ops in
+  nth_error (blobs st) bi = Some b -> (0 <= n)%Z -> snd (bstep st (BGrow bi n)) <> RUnknown ->
+  exists b', nth_error (blobs (fst (bstep st (BGrow bi n)))) bi = Some b'
+    /\ bytes_of (fst (bstep st (BGrow bi n))) b' = bytes_of st b ++ zeros (Z.to_nat n).
+Proof. intros ops bi b n st. subst st. rewrite bstep_reach. exact (grow_law _ bi b n (proj2 (bexec_inv ops))). Qed.
+Print Assumptions C19_grow.
+
+Theorem C19_truncate : forall ops bi b n, let st := bexec ops in
+  nth_error (blobs st) bi = Some b -> (0 <= n)%Z ->
+  exists b', nth_error (blobs (fst (bstep st (BTrunc bi n)))) bi = Some b'
+    /\ bytes_of (fst (bstep st (BTrunc bi n))) b' = firstn (Z.to_nat n) (bytes_of st b)
+    /\ arrays (fst (bstep st (BTrunc bi n))) = arrays st.
+Proof. intros ops bi b n st. subst st. rewrite bstep_reach. exact (trunc_law _ bi b n (proj2 (bexec_inv ops))). Qed.
+Print Assumptions C19_truncate.
+
+(* Non-vacuity: a concrete reachable state with a view, an out-of-range call and an aliasing write. *)
+Example C19_nonvacuous :
+  let ops := [BNew [1;2;3;4;5]%N; BView 0 1%Z 4%Z; BNew [9;8]%N; BSet 1 2 0%Z] in
+  snapshot (bexec ops) = [[1;9;8;4;5]%N; [9;8;4]%N; [9;8]%N]
+  /\ in_range (bexec ops) (BView 0 4%Z 2%Z) = false
+  /\ handles_ok (bexec ops) (BView 0 4%Z 2%Z).
+Proof. vm_compute. repeat split; lia. Qed.
+Print Assumptions C19_nonvacuous.
